@@ -91,8 +91,9 @@ func OracleC08(rc *sim.RunCtx, w *world.World, m *Model, pre *Model, step int, t
 
 func runC08(rc *sim.RunCtx) {
 	h, err := NewHist(rc, HistOpts{Profiles: []string{"choice"}, MinTx: 2, MaxTx: 9,
-		// orphan deletes are left out: "leave the orphaned nodes on the device" and "at most one case" contradict each other
-		Allowed: map[string]bool{"create": true, "change": true, "grow": true, "shrink": true, "reprio": true, "delete": true, "resubmit": true},
+		// orphan deletes: the orphaned intent is no longer live, so its case only stays on the device while no live intent
+		// contributes to another case of the choice (the oracle names a winner only among live contributions)
+		Allowed: map[string]bool{"create": true, "change": true, "grow": true, "shrink": true, "reprio": true, "delete": true, "resubmit": true, "orphan": true},
 		Oracles: map[string]bool{"C01": true, "C02": true}})
 	if err != nil {
 		rc.HarnessErr("world: %v", err)
